@@ -61,6 +61,9 @@ class Check:
             for s in r['samples']:
                 if len(self.samples) < 12: self.samples.append(s)
             for inc in r['inconclusive']: self.inconclusive.append('%s/%s: %s' % (name, r['name'], inc))
+            if r.get('dropped'):
+                summary['dropped_from_sample'] = summary.get('dropped_from_sample', []) + [r['name']]
+                self.outside.append('%s/%s: %s (dropped from the random sample; only the paths explored until then are covered)' % (name, r['name'], r['dropped']))
             for v in r['violations']:
                 v = dict(v); v['family'] = name
                 v['role'] = role_fn(v) if role_fn else '%s:%s:%s' % (name, v['aspect'], v['ref'])
@@ -74,6 +77,7 @@ class Check:
         from families import randprog
         n = n_quick if self.tier == 'quick' else n_thorough
         ts = randprog.templates(self.tier, self.seed, n, self.id)
+        for t in ts: t['droppable'] = True
         for t in ts: t['max_dec'] = 7        # at most 2^7 paths per program; beyond that one side of each further branch is followed (truncated)
         self.bounds['random_programs'] = '%d generated programs (kind-tracking grammar over all documented constructs, weighted towards %s; VERIF_SEED), integer / boolean leaves symbolic' % (n, randprog.EMPH.get(self.id, 'nothing in particular'))
         return self.run_family('random-programs', ts, aspects, lambda v: 'randprog:%s:%s:%s' % (v.get('template'), v['aspect'], v['ref']), par_templates=8, par_paths=2, timeout=300)
